@@ -578,11 +578,8 @@ func checkC03(c *Ctx, r *Report) {
 
 	// R5: commit
 	r5 := r.Rule("R5", "E-GUARD+E-ORDER/ok", "MoveDownloadFileToCache is called by the agent torrent only where the completed-piece count equals the number of pieces; committed becomes true only after that move returned nil or 'already exists'", 3)
-	for _, cs := range c.CallsTo("(" + pkgAgentSt + ".caDownloadStore).MoveDownloadFileToCache") {
-		fn := cs.Caller
-		if c.isFixture(fn) {
-			continue
-		}
+	for _, cs := range agentMoveSites(c) {
+		fn := cs.Fn
 		ok := guardedBy(cs.Instr, eqFact(func(b *ssa.BinOp) bool {
 			cnt := func(v ssa.Value) bool {
 				return mentionsField(v, pkgAgentSt+".Torrent.numComplete") || mentions(v, func(w ssa.Value) bool {
@@ -616,8 +613,8 @@ func checkC03(c *Ctx, r *Report) {
 				continue
 			}
 			ok := false
-			for _, mv := range callsInNamed(fn, "("+pkgAgentSt+".caDownloadStore).MoveDownloadFileToCache") {
-				if inSuccessRegion(mv.Instr, cs.Instr, "os.IsExist") {
+			for _, mv := range agentMoveSitesIn(c, fn) {
+				if inSuccessRegion(mv.Instr, cs.Instr, mv.Tolerated...) {
 					ok = true
 				}
 			}
@@ -646,9 +643,9 @@ func checkC03(c *Ctx, r *Report) {
 					}
 					pred := phi.Block().Preds[i]
 					hit := false
-					for _, mv := range callsInNamed(fn, "("+pkgAgentSt+".caDownloadStore).MoveDownloadFileToCache") {
+					for _, mv := range agentMoveSitesIn(c, fn) {
 						last := pred.Instrs[len(pred.Instrs)-1]
-						if inSuccessRegion(mv.Instr, last, "os.IsExist") {
+						if inSuccessRegion(mv.Instr, last, mv.Tolerated...) {
 							hit = true
 						}
 					}
